@@ -29,7 +29,8 @@ static volatile int n_aes, n_sha;               /* entries into the wrapped self
 static volatile uint64_t clk;                   /* logical clock */
 static volatile uint64_t t_selftest_exit;       /* clock when the SHA self-tests returned (end of the test run) */
 static volatile int stub_spin;                  /* stress: busy iterations inside the self-tests */
-static volatile uint32_t *status_var;           /* self_test_status inside the library */
+static volatile uint32_t *status_var;
+static uint8_t *kat_sha, *kat_aes;        /* writable known-answer data of the real self-tests */           /* self_test_status inside the library */
 static inline uint64_t tick(void) { return __atomic_add_fetch(&clk, 1, __ATOMIC_SEQ_CST); }
 
 int __wrap__aes_self_tests(void);
@@ -37,6 +38,7 @@ int __wrap__aes_self_tests(void)
 {
         __atomic_add_fetch(&n_aes, 1, __ATOMIC_SEQ_CST);
         for (volatile int i = 0; i < stub_spin; i++) ;
+        if (run_real == 2) return __real__aes_self_tests();     /* natural verdict of the real tests (a known-answer bit may be flipped) */
         if (run_real) (void) __real__aes_self_tests();
         return verdict_fail == 1 ? 1 : 0;      /* verdict_fail: 1 = the AES group fails, 2 = only the SHA group fails */
 }
@@ -45,6 +47,7 @@ int __wrap__sha_self_tests(void)
 {
         __atomic_add_fetch(&n_sha, 1, __ATOMIC_SEQ_CST);
         for (volatile int i = 0; i < stub_spin; i++) ;
+        if (run_real == 2) { int r = __real__sha_self_tests(); t_selftest_exit = tick(); return r; }
         if (run_real) (void) __real__sha_self_tests();
         t_selftest_exit = tick();
         return verdict_fail == 2 ? 1 : 0;
@@ -267,6 +270,8 @@ static void mode_stress(void)
                 active_n = rng_below(&r, 4) == 0 ? 1 + (int) rng_below(&r, (uint32_t) POOL) : 1 + (int) rng_below(&r, (uint32_t) (POOL < 8 ? POOL : 8));
                 verdict_fail = (int) rng_below(&r, 3);
                 run_real = rng_below(&r, 200) == 0;
+                uint8_t *flip = NULL;
+                if (rng_below(&r, 1000) == 0) { run_real = 2; uint32_t k = rng_below(&r, 3); verdict_fail = (int) k; flip = k == 1 ? kat_aes : k == 2 ? kat_sha : NULL; if (flip) *flip ^= 1; out_count("stress_rounds_with_real_self_tests", 1); }
                 stub_spin = rng_below(&r, 3) ? (int) rng_below(&r, 400) : (int) rng_below(&r, 20000);
                 for (int i = 0; i < active_n; i++) { kind_of[i] = rng_below(&r, 2) ? 0 : 1 + (int) rng_below(&r, 2); delay_of[i] = rng_below(&r, 2) ? 0 : (int) rng_below(&r, 300); rc_of[i] = -99; }
                 n_aes = n_sha = 0; clk = 0; t_selftest_exit = 0;
@@ -303,6 +308,7 @@ static void mode_stress(void)
                         if (rc_of[i] != want) { snprintf(key, sizeof key, "wrong-verdict stress"); out_viol("C17", key, rb, "thread %d of %d returned %d, injected verdict %s", i, active_n, rc_of[i], verdict_fail ? "fail" : "pass"); }
                         if (rclk_of[i] < t_selftest_exit) { snprintf(key, sizeof key, "returned-before-selftests-finished stress"); out_viol("C17", key, rb, "thread %d returned at logical time %llu before the self-tests finished at %llu", i, (unsigned long long) rclk_of[i], (unsigned long long) t_selftest_exit); }
                 }
+                if (flip) *flip ^= 1;
                 if ((int) *status_var != (verdict_fail ? 1 : 0)) { snprintf(key, sizeof key, "verdict-not-published stress"); out_viol("C17", key, rb, "status after the round is %u", *status_var); }
                 out_count("stress_rounds", 1); out_count("stress_thread_calls", (uint64_t) active_n);
                 out_max("max_threads_in_round", (uint64_t) active_n);
@@ -321,6 +327,8 @@ int main(int argc, char **argv)
 #endif
         status_var = sym_addr("self_test_status");
         if (!status_var) out_err("self_test_status not found in the symbol table");
+        kat_sha = sym_addr("msg_sha512"); kat_aes = sym_addr("aes_gcm_256_tag");
+        if (!kat_sha || !kat_aes) out_err("known-answer data of the self-tests not found");
         if (*status_var != 2) out_err("self_test_status does not hold NOT_DONE at start-up (%u)", *status_var);
         const char *m = arg_str("--mode", "stress");
         if (!strcmp(m, "sched")) mode_sched(); else mode_stress();
